@@ -26,6 +26,7 @@ import (
 	"bufio"
 	"bytes"
 	"fmt"
+	"io"
 	"os"
 	"os/exec"
 	"regexp"
@@ -262,13 +263,14 @@ func (w *c10World) chainProblem() string {
 // histories
 
 type c10Op struct {
-	kind  byte  // 'd' defmethod, 'r' remove-method, 'c' call, 'm' compute-applicable-methods
+	kind  byte  // 'd' defmethod, 'r' remove-method, 'c' call, 'm' compute-applicable-methods, 'G' defgeneric evaluated again
 	qual  byte  // p b a r
 	key   []int // specializer class ids (d, r) or argument class ids (c)
 	id    int
 	mode  byte // g d s (around bodies)
 	bare  bool // t specializers written as bare parameter symbols
 	viaGo bool // defined through generic.DefCallerMethod
+	opts  int  // 'G': up to this many directly following defmethod operations are :method options of the form
 }
 
 type c10Hist struct {
@@ -301,6 +303,11 @@ func (op c10Op) word() string {
 		return fmt.Sprintf("r%c:%s", op.qual, c10Join(op.key))
 	case 'm':
 		return "m:" + c10Join(op.key)
+	case 'G':
+		if 0 < op.opts {
+			return fmt.Sprintf("G~m%d", op.opts)
+		}
+		return "G"
 	}
 	return "c:" + c10Join(op.key)
 }
@@ -424,6 +431,16 @@ func c10Parse(line string) (h c10Hist, ok bool) {
 			w = strings.TrimSuffix(w, "~g")
 		}
 		parts := strings.Split(w, ":")
+		if w == "G" || strings.HasPrefix(w, "G~m") {
+			op.kind = 'G'
+			if w != "G" {
+				if op.opts, err = strconv.Atoi(w[3:]); err != nil || op.opts < 0 {
+					return h, false
+				}
+			}
+			h.ops = append(h.ops, op)
+			continue
+		}
 		switch {
 		case len(parts) == 4 && len(parts[0]) == 2 && parts[0][0] == 'd' && len(parts[3]) == 1:
 			op.kind, op.qual, op.mode = 'd', parts[0][1], parts[3][0]
@@ -626,6 +643,23 @@ func (w *c10World) defgeneric(g string, h c10Hist) string {
 	return b.String()
 }
 
+// the form of a 'G' operation at index i: (defgeneric g …) evaluated again for the existing generic
+// function, with the same lambda list; up to op.opts directly following defmethod operations (not
+// the ones defined from Go) are written as its :method options. Returns the number of operations
+// consumed as options.
+func (w *c10World) regeneric(g string, h c10Hist, i int) (string, int) {
+	var b strings.Builder
+	fmt.Fprintf(&b, "(defgeneric %s (%s%s) (:documentation \"again\")", g, strings.Join([]string{"x", "y", "z"}[:h.n], " "), map[bool]string{true: " &optional o", false: ""}[h.optional])
+	used := 0
+	for j := i + 1; j < len(h.ops) && used < h.ops[i].opts && h.ops[j].kind == 'd' && !h.ops[j].viaGo; j++ {
+		b.WriteString(" (:method ")
+		b.WriteString(strings.TrimPrefix(w.form(g, h.n, h.ops[j]), "(defmethod "+g+" "))
+		used++
+	}
+	b.WriteString(")")
+	return b.String(), used
+}
+
 func (w *c10World) forms(g string, h c10Hist) []string {
 	var out []string
 	w.optLL = h.optional
@@ -633,8 +667,19 @@ func (w *c10World) forms(g string, h c10Hist) []string {
 	if !h.implicit {
 		out = append(out, w.defgeneric(g, h))
 	}
+	skip := 0
 	for i, op := range h.ops {
 		if i < h.inGeneric {
+			continue
+		}
+		if 0 < skip {
+			skip--
+			continue
+		}
+		if op.kind == 'G' {
+			var f string
+			f, skip = w.regeneric(g, h, i)
+			out = append(out, f)
 			continue
 		}
 		w.optArg = h.optional && i%2 == 1
@@ -661,8 +706,26 @@ func (w *c10World) runImpl(h c10Hist) string {
 			words = append(words, "Xdefgeneric:"+o.Class)
 		}
 	}
+	skip := 0
 	for i, op := range h.ops {
 		if i < h.inGeneric {
+			continue
+		}
+		if 0 < skip {
+			skip--
+			continue
+		}
+		if op.kind == 'G' {
+			var src string
+			src, skip = w.regeneric(g, h, i)
+			// slip.Define warns "redefining <name>" on *error-output*: not an observable of the property
+			saved := slip.ErrorOutput
+			slip.ErrorOutput = &slip.OutputStream{Writer: io.Discard}
+			o := lib.EvalString(w.scope, src)
+			slip.ErrorOutput = saved
+			if !o.Ok {
+				words = append(words, fmt.Sprintf("X%d:%s", i, o.Class))
+			}
 			continue
 		}
 		w.optArg = h.optional && i%2 == 1
@@ -795,6 +858,8 @@ func c10Aspect(h c10Hist, upto int, impl, model string) string {
 			ever[strconv.Itoa(op.id)] = true
 		case 'r':
 			delete(table, slot{op.qual, c10Join(op.key)})
+		case 'G':
+			table = map[slot]string{}
 		}
 	}
 	for _, id := range table {
@@ -861,6 +926,9 @@ func c10Signature(w *c10World, h c10Hist, callIdx int, aspect string) string {
 				k = "remove"
 			}
 			last, lastAt = k+"-"+q, i
+			if op.kind == 'G' {
+				last = "defgeneric-again"
+			}
 			break
 		}
 	}
@@ -868,6 +936,9 @@ func c10Signature(w *c10World, h c10Hist, callIdx int, aspect string) string {
 	call := h.ops[callIdx]
 	if 0 <= lastAt {
 		rel = "applicable"
+		if h.ops[lastAt].kind == 'G' {
+			rel = "-"
+		}
 		for i, c := range h.ops[lastAt].key {
 			found := false
 			for _, p := range w.cpl[call.key[i]] {
@@ -891,6 +962,9 @@ func c10Signature(w *c10World, h c10Hist, callIdx int, aspect string) string {
 		type slot struct{ k string }
 		cur := map[string]bool{}
 		for _, op := range h.ops[:callIdx] {
+			if op.kind == 'G' {
+				cur = map[string]bool{}
+			}
 			if op.qual != 'r' {
 				continue
 			}
@@ -951,6 +1025,7 @@ func c10Db(q byte, mode byte, key ...string) c10Sym {
 func c10M(key ...string) c10Sym         { return c10Sym{kind: 'm', key: key} }
 func c10R(q byte, key ...string) c10Sym { return c10Sym{kind: 'r', qual: q, key: key} }
 func c10C(key ...string) c10Sym         { return c10Sym{kind: 'c', key: key} }
+func c10G() c10Sym                      { return c10Sym{kind: 'G'} }
 
 func c10Alphabets() []c10Alphabet {
 	return []c10Alphabet{
@@ -992,6 +1067,13 @@ func c10Alphabets() []c10Alphabet {
 		{"methods-query-1", 1, []c10Sym{
 			c10D('p', 's', "c10a"), c10D('p', 's', "c10c"), c10D('r', 'g', "c10b"), c10D('b', 's', "c10c"), c10D('a', 's', "c10a"),
 			c10R('p', "c10c"), c10M("c10d"), c10C("c10d")}},
+		// (defgeneric g …) evaluated again between definitions, removals, calls and queries
+		{"defgeneric-again-1", 1, []c10Sym{
+			c10D('p', 's', "c10a"), c10D('r', 'g', "c10c"), c10D('b', 's', "t"), c10D('p', 's', "t"),
+			c10R('p', "c10a"), c10G(), c10M("c10d"), c10C("c10b"), c10C("c10d")}},
+		{"defgeneric-again-2", 2, []c10Sym{
+			c10D('p', 's', "t", "t"), c10D('p', 's', "c10b", "t"), c10D('a', 's', "c10a", "c10c"), c10D('r', 'd', "t", "c10b"),
+			c10R('p', "t", "t"), c10G(), c10C("c10b", "c10b"), c10C("c10d", "c10d"), c10C("t", "fixnum")}},
 	}
 }
 
@@ -1101,9 +1183,22 @@ func (w *c10World) randomHistory(r *lib.Rng) c10Hist {
 	length := 8 + r.Intn(40)
 	pCall, pRemove := 30+r.Intn(30), 10+r.Intn(25)
 	stopPct := r.Intn(25)
+	// a third of the histories evaluate the defgeneric form again now and then (some with :method options)
+	pAgain := 0
+	if r.Chance(33) {
+		pAgain = 2 + r.Intn(8)
+	}
 	id := 100
 	for i := 0; i < length; i++ {
 		x := r.Intn(100)
+		if 0 < pAgain && r.Intn(100) < pAgain {
+			op := c10Op{kind: 'G'}
+			if r.Chance(40) {
+				op.opts = 1 + r.Intn(3)
+			}
+			h.ops = append(h.ops, op)
+			continue
+		}
 		switch {
 		case x < pCall:
 			k := make([]int, n)
@@ -2957,6 +3052,49 @@ func runC10(c *lib.Ctx) {
 			gen: func(i int) c10Hist { return hs[i] }})
 	}
 	{
+		// sweep: (defgeneric g …) evaluated again after calls with every argument tuple used later
+		// (every qualifier, 1–3 arguments, explicit / implicit first definition, with / without
+		// &optional, 0–2 :method options in the second form): directly afterwards nothing but the
+		// options is applicable, then methods are defined anew
+		var hs []c10Hist
+		for n := 1; n <= 3; n++ {
+			for _, q := range "pbar" {
+				for v := 0; v < 12; v++ {
+					opts, implicit, optional := v%3, (v/3)%2 == 1, v/6 == 1
+					spec := make([]int, n)
+					for i := range spec {
+						spec[i] = w.classID["c10a"]
+					}
+					gen := make([]int, n) // all t
+					arg, arg2 := make([]int, n), make([]int, n)
+					for i := range arg {
+						arg[i], arg2[i] = w.classID["c10c"], w.classID["fixnum"]
+					}
+					hs = append(hs, c10Hist{n: n, implicit: implicit, optional: optional, ops: []c10Op{
+						{kind: 'd', qual: byte(q), key: spec, id: 11, mode: 'g'},
+						{kind: 'd', qual: 'p', key: gen, id: 12, mode: 's', bare: n == 2},
+						{kind: 'c', key: arg},
+						{kind: 'c', key: arg2},
+						{kind: 'G', opts: opts},
+						{kind: 'd', qual: byte(q), key: gen, id: 13, mode: 'g'},
+						{kind: 'd', qual: 'p', key: spec, id: 14, mode: 's'},
+						{kind: 'c', key: arg},
+						{kind: 'c', key: arg2},
+						{kind: 'm', key: arg},
+						{kind: 'G'},
+						{kind: 'c', key: arg},
+						{kind: 'c', key: arg2},
+						{kind: 'm', key: arg2},
+						{kind: 'd', qual: 'b', key: gen, id: 15, mode: 's', viaGo: true},
+						{kind: 'c', key: arg},
+					}})
+				}
+			}
+		}
+		fams = append(fams, c10Family{name: "sweep:defgeneric-again", label: "sweep:defgeneric-again", sweep: true, count: len(hs),
+			gen: func(i int) c10Hist { return hs[i] }})
+	}
+	{
 		var hs []c10Hist
 		for i, n := 0, c.Scale(4000, 80000); i < n; i++ {
 			hs = append(hs, w.randomHistory(c.Rng))
@@ -3035,6 +3173,8 @@ func runC10(c *lib.Ctx) {
 							c.Ev.Hist("op", "defmethod-"+string(op.qual))
 						case 'r':
 							c.Ev.Hist("op", "remove-"+string(op.qual))
+						case 'G':
+							c.Ev.Hist("op", "defgeneric-again")
 						case 'm':
 							c.Ev.Hist("op", "compute-applicable-methods")
 							calls++
